@@ -307,6 +307,43 @@ func main() {
 				e.Strs("syncLoopErrScope", sorted(evs), "FileWriter.syncLoop: every declaration/assignment of the error sent to the batch's writers, and what is sent")
 			}
 		}
+		if f, err := r.Load("fracmanager/list.go"); err != nil {
+			e.Missing("filterInRangeResult", err)
+		} else if fd := f.Func("List", "FilterInRange"); fd == nil {
+			e.Missing("filterInRangeResult", "List.FilterInRange not found")
+		} else {
+			var evs []ev
+			ast.Inspect(fd.Body, func(x ast.Node) bool {
+				switch st := x.(type) {
+				case *ast.AssignStmt:
+					if st.Tok == token.DEFINE && len(st.Lhs) == 1 {
+						evs = append(evs, ev{st.Pos(), f.Render(st)})
+					}
+				case *ast.ReturnStmt:
+					evs = append(evs, ev{st.Pos(), f.Render(st)})
+				}
+				return true
+			})
+			e.Strs("filterInRangeResult", sorted(evs), "List.FilterInRange: where its result lives (a fresh slice, not the receiver's backing array) and what it returns")
+		}
+		if f, err := r.Load("frac/info.go"); err != nil {
+			e.Missing("buildDistributionLoop", err)
+		} else if fd := f.Func("Info", "BuildDistribution"); fd == nil {
+			e.Missing("buildDistributionLoop", "Info.BuildDistribution not found")
+		} else {
+			var evs []ev
+			ast.Inspect(fd.Body, func(x ast.Node) bool {
+				if rs, ok := x.(*ast.RangeStmt); ok {
+					evs = append(evs, ev{rs.Pos(), "for " + f.Render(rs.Key) + ", " + f.Render(rs.Value) + " := range " + f.Render(rs.X)})
+					for _, st := range rs.Body.List {
+						evs = append(evs, ev{st.Pos(), f.Render(st)})
+					}
+					return false
+				}
+				return true
+			})
+			e.Strs("buildDistributionLoop", sorted(evs), "Info.BuildDistribution: the loop that marks the buckets (every id, unconditionally)")
+		}
 		if f, err := r.Load("fracmanager/fetcher.go"); err != nil {
 			e.Missing("fetchArrangeGuards", err)
 		} else if fd := f.Func("Fetcher", "FetchDocs"); fd == nil {
@@ -538,5 +575,5 @@ func main() {
 			e.Bool("trySetClearsUnlessSealing", total == 2 && inside == 2 && sealingDef,
 				"trySetSuicided: `sealing := f.isSealingState()` and the only field writes are sealed=nil, active=nil under `if !sealing`")
 		}
-	}, "frac/active_indexer.go", "frac/active_index.go", "frac/active.go", "frac/active_token_list.go", "frac/inverser.go", "frac/file_writer.go", "frac/sealed.go", "frac/sealed_index.go", "fracmanager/fracmanager.go", "fracmanager/fetcher.go", "storeapi/client.go", "proxy/bulk/indexer.go", "fracmanager/proxy_frac.go")
+	}, "frac/active_indexer.go", "frac/active_index.go", "frac/active.go", "frac/active_token_list.go", "frac/inverser.go", "frac/info.go", "fracmanager/list.go", "frac/file_writer.go", "frac/sealed.go", "frac/sealed_index.go", "fracmanager/fracmanager.go", "fracmanager/fetcher.go", "storeapi/client.go", "proxy/bulk/indexer.go", "fracmanager/proxy_frac.go")
 }
